@@ -415,6 +415,7 @@ func execBatch(sc *Scenario, env *Env) *Result {
 	run := func(order []int, spec *SchedSpec, disk *SimDisk, abortAt int) *BatchOutcome {
 		out := env.RunBatch(root, batchLinesText(sc, order, false), spec, disk, writeLog, 0, -1, abortAt)
 		hashes += out.TraceHash
+		res.Digest += fmt.Sprintf("%s:%d:%s;", out.TraceHash, len(out.Decisions), disk.Digest())
 		res.add("batches", 1)
 		return out
 	}
